@@ -40,7 +40,7 @@ func mutateMsg(t *rapid.T, msg []byte) ([]byte, string) {
 	case "flip":
 		return flipBits(t, msg, "mf"), k
 	case "truncate":
-		return append([]byte(nil), msg[:rapid.IntRange(0, len(msg)-1).Draw(t, "mt")]...), k
+		return append([]byte(nil), msg[:uniformInt(t, 0, len(msg)-1, "mt")]...), k
 	default:
 		return append(append([]byte(nil), msg...), rapid.SliceOfN(rapid.Byte(), 1, 4).Draw(t, "ma")...), k
 	}
@@ -138,7 +138,7 @@ func c08Schnorr(t *rapid.T, ev *evProp, gi *GroupInfo) {
 	case "sbitflip":
 		copy(msig[pl:], flipBits(t, sig[pl:], "sf"))
 	case "truncate":
-		msig = msig[:rapid.IntRange(0, len(msig)-1).Draw(t, "tl")]
+		msig = msig[:uniformInt(t, 0, len(msig)-1, "tl")]
 	case "extend":
 		msig = append(msig, rapid.SliceOfN(rapid.Byte(), 1, 8).Draw(t, "ext")...)
 	case "swap":
@@ -502,7 +502,7 @@ func c08Ring(t *rapid.T, ev *evProp) {
 	case "sigbitflip":
 		run(msg, ring, scope, flipBits(t, sig, "sf"))
 	case "truncate":
-		run(msg, ring, scope, sig[:rapid.IntRange(0, len(sig)-1).Draw(t, "tl")])
+		run(msg, ring, scope, sig[:uniformInt(t, 0, len(sig)-1, "tl")])
 	case "link-same":
 		// same key, same scope, other message and other ring => same tag
 		if scope == nil {
@@ -572,7 +572,7 @@ func TestC08_Schnorr(t *testing.T) {
 		}
 	}
 	rcheck(t, 90*len(groups), 2500*len(groups), func(t *rapid.T) {
-		gi := groups[rapid.IntRange(0, len(groups)-1).Draw(t, "group")]
+		gi := groups[uniformInt(t, 0, len(groups)-1, "group")]
 		c08Schnorr(t, ev, gi)
 	})
 }
